@@ -30,7 +30,16 @@ def lf_add(x, y):
     return x + y
 
 
+def lf_pair_forwards(x, y):
+    return x + y, x - y
+
+
+def lf_pair_backwards(u, v):
+    return (u + v) / 2, (u - v) / 2
+
+
 FUNCS = {"double": (lf_double, lf_half), "shift": (lf_shift, lf_unshift)}
+HELPERS2 = ["Galactic_to_FK5", "FK4_to_FK5", "ICRS_to_FK5", "Galactic_to_FK4", "ICRS_to_FK4", "ICRS_to_Galactic"]
 
 
 @st.composite
@@ -158,11 +167,20 @@ def session_spec(draw, max_datasets=3, datetime=True, joins=True, links=True):
             ta = draw(st.sampled_from(na))
             # each attribute takes part in at most one link: two different routes to one attribute make the value read
             # through links depend on which equal-depth link the link manager happens to pick
-            used = [tuple(L["a"]) for L in lks] + [tuple(L["b"]) for L in lks]
+            used = [tuple(L[k]) for L in lks for k in ("a", "b", "a2", "b2") if k in L]
             if (a, ta) in used or (b, tb) in used:
                 continue
-            lks.append({"kind": draw(st.sampled_from(["func", "twoway", "identity", "linksame", "linktwoway"])), "a": [a, ta],
-                        "b": [b, tb], "fn": draw(st.sampled_from(sorted(FUNCS)))})
+            kind = draw(st.sampled_from(["func", "twoway", "identity", "linksame", "linktwoway", "helper2", "multilink"]))
+            L = {"kind": kind, "a": [a, ta], "b": [b, tb], "fn": draw(st.sampled_from(sorted(FUNCS)))}
+            if kind in ("helper2", "multilink"):
+                # two attributes on each side
+                ra = [x for x in na if x != ta and (a, x) not in used]
+                rb = [x for x in nb if x != tb and (b, x) not in used]
+                if not ra or not rb:
+                    continue
+                L["a2"], L["b2"] = [a, ra[0]], [b, rb[0]]
+                L["helper"] = draw(st.sampled_from(HELPERS2))
+            lks.append(L)
     jns = []
     if joins and nd >= 2:
         one_d = [i for i, d in enumerate(datasets) if len(d["shape"]) == 1]
@@ -211,6 +229,16 @@ def build_session(spec, plain_subsets=False):
             dc.add_link(ComponentLink([ca], cb))
         elif L["kind"] == "linksame":
             dc.add_link(LinkSame(ca, cb))
+        elif L["kind"] == "helper2":
+            import glue.plugins.coordinate_helpers.link_helpers as H
+            ca2 = datas[L["a2"][0]].main_components[L["a2"][1]]
+            cb2 = datas[L["b2"][0]].main_components[L["b2"][1]]
+            dc.add_link(getattr(H, L["helper"])(cids1=[ca, ca2], cids2=[cb, cb2]))
+        elif L["kind"] == "multilink":
+            from glue.core.link_helpers import MultiLink
+            ca2 = datas[L["a2"][0]].main_components[L["a2"][1]]
+            cb2 = datas[L["b2"][0]].main_components[L["b2"][1]]
+            dc.add_link(MultiLink(cids1=[ca, ca2], cids2=[cb, cb2], forwards=lf_pair_forwards, backwards=lf_pair_backwards))
         else:
             dc.add_link(LinkTwoWay(ca, cb, f, g))
     for J in spec["joins"]:
